@@ -550,6 +550,8 @@ package controller
 // a taint pass is entered only from the two lower bands, with the band's rate; the do-nothing branch only
 // when no band asks for anything; a scale-up only with a delta >= 1, which is 1 when only an exception
 // (scale_on_starve, max_node_age) asked for it. C05: above the threshold the delta is the computed one.
+// C09/C13: the node count a scale-up is sized on is that of the untainted (uncordoned) list
+//@   assert @calcScaleUpDelta#1 [C05,C09,C13] len(#arg0) == len(untaintedNodes) && base(#arg0) == base(untaintedNodes) && off(#arg0) == off(untaintedNodes)
 // C13: what is divided is the request total over the group's pods and the allocatable total over the untainted nodes
 //@   assert @calcPercentUsage#1 [C13] milli(#arg0) == k8s.sumPodCPU(pods, len(pods)) && milli(#arg1) == 1000 * k8s.sumPodMem(pods, len(pods))
 //@   assert @calcPercentUsage#1 [C13] milli(#arg2) == k8s.sumAllocCPU(untaintedNodes, len(untaintedNodes)) && milli(#arg3) == 1000 * k8s.sumAllocMem(untaintedNodes, len(untaintedNodes)) && #arg4 == len(untaintedNodes)
